@@ -368,7 +368,7 @@ func (x *Exec) indexAddr(st *State, t *ssa.IndexAddr) Val {
 	case *types.Slice:
 		x.guardValCheck(st, t, a, false)
 		x.oblige(st, "safe:index", x.ordinalFor(t, "safe:index", ""), fmt.Sprintf("(and (<= 0 %s) (< %s (s_len %s)))", i.T, i.T, a.T), safetyTags, "index out of range")
-		return Val{Ty: t.Type(), Loc: &Loc{Kind: LElem, Arr: "(s_arr " + a.T + ")", Idx: "(+ (s_off " + a.T + ") " + i.T + ")", Elem: u.Elem()}}
+		return Val{Ty: t.Type(), Loc: &Loc{Kind: LElem, Arr: a.T, Idx: i.T, Elem: u.Elem()}}
 	case *types.Pointer:
 		at := u.Elem().Underlying().(*types.Array)
 		if a.Loc == nil {
@@ -377,7 +377,7 @@ func (x *Exec) indexAddr(st *State, t *ssa.IndexAddr) Val {
 		x.oblige(st, "safe:index", x.ordinalFor(t, "safe:index", ""), fmt.Sprintf("(and (<= 0 %s) (< %s %d))", i.T, i.T, at.Len()), safetyTags, "array index out of range")
 		if a.Loc.Kind == LRef {
 			x.oblige(st, "safe:nil", x.ordinalFor(t, "safe:nil", "arr"), not(eq(a.Loc.Ref, "0")), safetyTags, "nil array pointer")
-			return Val{Ty: t.Type(), Loc: &Loc{Kind: LElem, Arr: a.Loc.Ref, Idx: i.T, Elem: at.Elem()}}
+			return Val{Ty: t.Type(), Loc: &Loc{Kind: LElem, Arr: fmt.Sprintf("(mk_slice %s 0 %d %d)", a.Loc.Ref, at.Len(), at.Len()), Idx: i.T, Elem: at.Elem()}}
 		}
 		return Val{Ty: t.Type(), Loc: &Loc{Kind: LArrIdx, Parent: a.Loc, Idx: i.T, Elem: at.Elem()}}
 	}
@@ -569,7 +569,11 @@ func (x *Exec) convert(st *State, t *ssa.Convert) Val {
 	_, _, fi := intInfo(from)
 	_, _, ti := intInfo(to)
 	if fi && ti {
-		return Val{T: x.convertInt(st, v.T, from, to), Ty: to}
+		nv := Val{T: x.convertInt(st, v.T, from, to), Ty: to}
+		if nv.T == v.T {
+			nv.Hi, nv.Lo = knownBits(v, from)
+		}
+		return nv
 	}
 	fb, _ := from.Underlying().(*types.Basic)
 	tb, _ := to.Underlying().(*types.Basic)
